@@ -117,28 +117,9 @@ package align
 
 // ---- reference search when no ORF is supplied ----
 
-// (*seq).LongestORF is a regular-expression search (library code: not verifiable here). ASSUMED: the documented shape of
-// the result of FindAllStringIndex — no match (-1,-1), or a window [start,end) of the sequence holding at least ATG + stop.
-// NOT CLAIMED: that the window is a longest ORF of the sequence — it is not (defect 2: non-overlapping matches hide longer
-// ORFs of other frames).
-//@ func (*seq).LongestORF
-//@   props C16
-//@   trusted regexp search in library code; only the shape of the result is assumed
-//@   requires s != nil
-//@   ensures (start == -1 && end == -1) || (0 <= start && start + 6 <= end && end <= len(s.sequence))
-//@   modifies nothing
-
-// (*seqbag).LongestORF: safety and shape only — no panic, inputs not modified, error iff no row (and no reverse strand)
-// reports an ORF; the result is a fresh record of at least 6 bases. The maximality over rows/strands is NOT COVERED.
-//@ func (*seqbag).LongestORF
-//@   props C16 C19
-//@   requires sb != nil && rowsok(sb)
-//@   ensures err == nil ==> orf != nil && fresh(orf) && len(orf.sequence) >= 6
-//@   modifies nothing
-//@   loop 1
-//@     invariant !found ==> beststart == 0 && bestend == 0
-//@     invariant found ==> bestseq != nil && 0 <= beststart && beststart + 6 <= bestend && bestend <= len(bestseq.sequence)
-//@     decreases nrows(sb) - $i
+// (*seq).LongestORF and (*seqbag).LongestORF: see zz_contracts_c19b_verif.go (one contract per function; tagged C16 C19).
+// NOT CLAIMED: that the window is a longest ORF of the sequence (regular-expression search in library code), nor the
+// maximality over rows/strands.
 
 // Producer of the input channel: every row is sent exactly once, in order, as a non-nil sequence (what the workers
 // assume of the values they receive), then the channel is closed.
